@@ -564,6 +564,51 @@ def _stmt_of(eng, fi, node):
     return best
 
 
+def rule_assembled_model_at_current_incumbent(eng, rep, rule="C16-7.assembled-gradient-is-2-Jt-times-the-model-at-the-current-incumbent"):
+    """build_full_model hands the step solvers g = 2 J'(c + J x_opt): the model residual *at the incumbent as it is now*.  The fitted (c, J) stay valid as a function
+    while points are replaced, but the incumbent moves (change_point, add_new_sample, add_new_point) without a re-fit -- so x_opt must be read when the model is
+    assembled, not cached at the time of the fit.  Decided on affine normal forms (T7): any algebraically equal spelling passes."""
+    bf = eng.fn("model.Model.build_full_model")
+    selfn = bf.posparams[0]
+    jac = "%s.model_jac" % selfn
+    ops = {jac: "J", jac + ".T": "Jt"}
+    for _ in range(3):      # local aliases (and aliases of aliases) of the Jacobian and of its transpose
+        for node in eng.prog.own_nodes(bf):
+            if isinstance(node, ast.Assign) and len(node.targets) == 1 and isinstance(node.targets[0], ast.Name) and ekey(node.value) in ops:
+                nm = node.targets[0].id
+                ops[nm] = ops[ekey(node.value)]
+                ops[nm + ".T"] = "Jt" if ops[nm] == "J" else "J"
+    se = affine.SymExec(linear_ops=ops)
+    site = eng.where(bf)
+    try:
+        st = se.run(bf.node.body)
+    except AnalysisError as ex:
+        rep.unknown(rule, site, str(ex))
+        return
+    rets = [n for n in eng.prog.own_nodes(bf) if isinstance(n, ast.Return) and isinstance(n.value, ast.Tuple) and n.value.elts]
+    if len(rets) != 1:
+        rep.unknown(rule, site, "expected one `return g, H`")
+        return
+    g = se.ev(rets[0].value.elts[0])
+    xcalls = [name for (name, node, _a) in se.calls if ekey(node.func) == "%s.xopt" % selfn and not node.args and not node.keywords]
+    want = None
+    for xc in xcalls:
+        w = affine.scale(affine.apply("Jt", affine.add(affine.sym("%s.model_const" % selfn), affine.apply("J", affine.sym(xc)))), 2)
+        if w == g:
+            want = w
+    if want is not None:
+        rep.ok(rule, site, "g == %s with x_opt read at the time of the call" % affine.fmt(want))
+        return
+    atoms = set(a for (_chain, a) in g)
+    foreign = [a for a in atoms if (a.startswith("call") and a not in xcalls) or a.startswith("opaque")]
+    if foreign:
+        rep.unknown(rule, site, "the assembled gradient is %s: it goes through %s, which this rule cannot look into" % (affine.fmt(g), ", ".join(sorted(foreign))))
+    else:
+        rep.bad(rule, site, "model.Model.build_full_model|gradient-form",
+                "the assembled gradient is %s, not 2 J'(model_const + J.xopt()) at the current incumbent: a value kept from the time of the fit goes stale as soon as the incumbent moves "
+                "without a re-fit (point replaced, re-sampled or appended)" % affine.fmt(g))
+
+
 def run(eng, rep):
     rep.explain("C16 (structural clauses): the read-set of Model.interpolation_matrix is computed over the call graph; a typestate data-flow over every Model method "
                 "proves that each write to a member of it is followed by factorisation_current = False on every path to the exit, and that only "
@@ -578,3 +623,4 @@ def run(eng, rep):
     rule_shift_affine(eng, rep)
     rule_no_mutation_through_alias(eng, rep)
     rule_solution_components(eng, rep)
+    rule_assembled_model_at_current_incumbent(eng, rep)
